@@ -45,7 +45,11 @@ pub fn enum_rename(_s: u64) -> Vec<String> {
         mk_list(&[var(4, "$H")], Some(var(5, "$T"))),
         SFunction { name: "add".into(), terms: vec![var(2, "$X"), SInteger(1)] },
     ];
-    terms.iter().map(|t| format!("{}", ser(t))).collect()
+    let mut out: Vec<String> = terms.iter().map(|t| format!("{}", ser(t))).collect();
+    // seeded random terms (nested lists, tails, `$_`, repeated variable names)
+    let mut rng = Rng(_s.wrapping_mul(0x9E3779B97F4A7C15) | 1);
+    for _ in 0..150 { out.push(ser(&rand_term(&mut rng, 3, 4, true))); }
+    out
 }
 
 pub fn check_rename(case: &str) -> Result<(), String> {
